@@ -137,7 +137,7 @@ func TestBlockDeterminism(t *testing.T) {
 		defer runtime.GOMAXPROCS(runtime.GOMAXPROCS(0))
 		resetCaches()
 		defer resetCaches()
-		s := chainsim.New(t, chainsim.Options{Contracts: true, Tokens: true, AllRich: rapid.Bool().Draw(t, "allrich"), RichBalance: true, RealCache: rapid.IntRange(0, 3).Draw(t, "realcache") == 0, Candidates: rapid.IntRange(0, 2).Draw(t, "candidates") != 0, Wasm: rapid.IntRange(0, 2).Draw(t, "wasm") != 0})
+		s := chainsim.New(t, chainsim.Options{Contracts: true, Tokens: true, AllRich: rapid.Bool().Draw(t, "allrich"), RichBalance: true, RealCache: rapid.IntRange(0, 3).Draw(t, "realcache") == 0, Candidates: rapid.IntRange(0, 2).Draw(t, "candidates") != 0, Wasm: rapid.IntRange(0, 2).Draw(t, "wasm") != 0, MultiSign: rapid.Bool().Draw(t, "multisign")})
 		kindsHere := accountKinds
 		if s.WasmCodes != nil {
 			kindsHere = append(append([]string(nil), accountKinds...), "wasm-call", "wasm-call", "wasm-call")
@@ -164,7 +164,7 @@ func TestBlockDeterminism(t *testing.T) {
 			suicide := false
 			for i := 0; i < ntx; i++ {
 				var g *chainsim.Tx
-				class := rapid.IntRange(0, 9).Draw(t, "class")
+				class := rapid.IntRange(0, 10).Draw(t, "class")
 				if b == 0 && i < 2 {
 					class = 0
 				}
@@ -176,7 +176,12 @@ func TestBlockDeterminism(t *testing.T) {
 						g = s.GenA2U(t)
 					}
 				case 9:
-					if g = s.GenUpgrade(t); g == nil {
+					if g = s.GenUpgradeBy(t); g == nil {
+						g = s.GenAccountTx(t, kindsHere)
+					}
+				case 10:
+					// a validator-signed rotation of the upgrade signer set (upgrades signed by the old set may be pending)
+					if g = s.GenMultiSign(t); g == nil {
 						g = s.GenAccountTx(t, kindsHere)
 					}
 				default:
